@@ -41,3 +41,10 @@ check('C10', 'exploration',
       'refusals (unknown type, reserved names, wrong shape); Integrate against closed forms; Derive against hyper-dual derivatives.',
       'Integrals at tolerance 1e-6 for smooth normally-decaying integrands; Derive only with respect to names present in the formula.',
       'bounded exhaustive enumeration of integrands x draw-variable sets x R x N vs mean over logged series', 'DESIGN.md section 4, C10')
+check('C11', 'exploration',
+      'All 21 catalogue entries are executed for every size of a bounded grid (N <= 7, R <= 50) with numpy\'s RNG replaced by an answer tape (9 deterministic uniform tapes per seed; every shuffle permutation when at most 5 entries are shuffled, '
+      'otherwise identity, reversal, every adjacent transposition and rotation). Each output is compared with an independent reference: exact radical inverse of the base and skip parsed from the description text, one point per stratum, mirror halves, '
+      '2u-1 of the unit partner, the normal quantile of the underlying uniforms, also through Database.generate_draws. The quantile transform is checked on the exhaustive grid (k+theta)/2^16 (thorough 2^19), all tails 2^-15..2^-1020 and ulp neighbourhoods of all branch points '
+      'against a certified erf/erfc quantile, tolerance 3e-14.',
+      'Uniform answers come from finite tape families; shuffle answers complete only for n <= 5; libm erf/erfc trusted to a few ulp; entries advertising no skip may use any single skip in 0..64.',
+      'bounded exhaustive enumeration of catalogue entries x sizes x enumerated RNG answers; exhaustive dyadic grid for the quantile transform', 'DESIGN.md section 4, C11')
